@@ -38,7 +38,11 @@ def check_cost(rep, run: Run, D: Blocks, rule="BN-COST", cross=cross_spec, diag=
             while isinstance(k, tuple) and k and k[0] == "sub":
                 k = k[1]
             ins_axes.append(k)
-        if ins_axes != [("rows", run.a), ("rows", run.b)]:
+        if ins_axes != [("rows", run.a), ("rows", run.b)] and (run.interp.lossy or not sym.inputs_of(v.elem)):
+            # a constant block (or a run that lost track of an in-place update): not the cross block, role unknown
+            rep.unmodelled(rule, fi, s["node"], f"a block indexed by {ins_axes} with entries {sym.show(v.elem)[:60]} could not "
+                                                f"be given a role")
+        elif ins_axes != [("rows", run.a), ("rows", run.b)]:
             rep.refuted(rule, fi, s["node"], f"cross block is indexed by {ins_axes}, not (rows of first diagram) × "
                                              f"(rows of second diagram)")
             continue
@@ -375,6 +379,9 @@ def _check_lohi(rep, run, D, fi, w) -> bool:
     lo0 = inits.get(lo)
     hi0 = inits.get(hi)
     hi_txt = ast.unparse(hi0).replace(" ", "") if hi0 is not None else ""
+    import re as _re
+    hi_txt = _re.sub(r"^(\w+)\.size", r"len(\1)", hi_txt)          # ds.size  == len(ds) for a 1-d array
+    hi_txt = _re.sub(r"^(\w+)\.shape\[0\]", r"len(\1)", hi_txt)   # ds.shape[0]
     lo_zero = lo0 is not None and isinstance(lo0, ast.Constant) and lo0.value == 0
     inclusive = lo_zero and hi_txt.startswith("len(") and hi_txt.endswith(")-1")
     half_open = lo_zero and hi_txt.startswith("len(") and hi_txt.endswith(")") and hi_txt.count("(") == 1
